@@ -72,12 +72,9 @@ StepProcess ==
 StepKnownDefect ==
     /\ Ev.ev = "Process" /\ Has("skip")
     /\ Ev.m \in Ids
-    /\ \/ /\ Ev.skip = "redelivery-emits-events:kb"
-          /\ msgs[Ev.m].kind = "kb" /\ Ev.m \in applied[Ev.p]
-          /\ Ev.again /\ Ev.res = "ok" /\ ~Ev.changed
-       \/ /\ Ev.skip = "panic:auth-group-missing"
-          /\ msgs[Ev.m].cls \in {"auth_unknown_group", "auth_no_deps", "auth_unknown_dep"}
-          /\ Ev.res = "panic" /\ Ev.m \notin applied[Ev.p]
+    /\ Ev.skip = "redelivery-emits-events:kb"
+    /\ msgs[Ev.m].kind = "kb" /\ Ev.m \in applied[Ev.p]
+    /\ Ev.again /\ Ev.res = "ok" /\ ~Ev.changed
     /\ UNCHANGED <<vars, obs>>
 
 TraceInit == Init /\ i = 1 /\ obs = NoObs
